@@ -221,3 +221,208 @@ class WrapMakeDag:
         else:
             C.check(z3.BoolVal(raised is not None), f"{n}.exceptional.C14.the_error_of_the_description_propagates", {"C14"}, "post")
         return "return" if raised is None else f"raises {type(raised).__name__}"
+
+
+# ---- make_dag -------------------------------------------------------------------------------------------------------------------
+class MakeDag:
+    """tawazi/_dag/constructor.py make_dag: one argument holder per parameter of the describing function (in signature
+    order: parameters without default, then the defaulted ones), defaults stored under their holders' ids, the
+    describing function called exactly once with references to those holders, its return value wrapped by
+    wrap_in_uxns, and the DAG built from the very tables the description filled.  (What the describing function's BODY
+    records is the business of LazyExecNode.__call__ / DAG.__call__; its meaning is covered by the bounded program
+    stand-in only.)"""
+
+    module = "tawazi._dag.constructor"
+    qualname = "make_dag"
+
+    def __init__(self):
+        from pyvc.engine import LoopSpec
+
+        outer = self
+
+        class DefaultsLoop(LoopSpec):
+            carried = ("args",)
+
+            def modifies(self, env):
+                return [C.ghost["results"]]
+
+            def rebind(self, env):
+                return {"args": outer.SHolders.fresh()}
+
+            def inv(self, env, st):
+                return outer.inv(env["args"], st.nseen)
+
+        self.loops = {0: DefaultsLoop()}
+
+    def cases(self):
+        return ["sync", "async"]
+
+    # -- model ------------------------------------------------------------------------------------------------
+    class SHolder(Sym):
+        def __init__(self, i):
+            self._i = i
+            self.id = sym.SId(i)
+
+        def _vc_subst(self, a, b):
+            return MakeDag.SHolder(z3.substitute(self._i, (a, b)))
+
+    class SHolders(Sym):
+        """the Python list `args` of ArgExecNodes (append only)"""
+
+        def __init__(self, n, ids):
+            self.n, self.ids = n, ids
+            self._serial = C.next_serial()
+
+        @staticmethod
+        def fresh():
+            n = C.fresh("len_args", I)
+            C.assume(n >= 0)
+            return MakeDag.SHolders(n, C.fresh("ids_args", z3.ArraySort(I, sym.Id)))
+
+        def append(self, h):
+            C.mutated[id(self)] = self
+            self.ids = z3.Store(self.ids, self.n, h._i)
+            self.n = self.n + 1
+
+        def _vc_iter(self):
+            n, ids = self.n, self.ids
+            it = sym.SIter(I, lambda i: z3.And(i >= 0, i < n), lambda i: MakeDag.SHolder(ids[i]), count=n)
+            it._indexed = (n, list)
+            return it
+
+    def inv(self, args, upto):
+        from pyvc.sym import Id, Key, Val, bv
+
+        g = C.ghost
+        n1, pname, dname, dval, hold = g["n1"], g["pname"], g["dname"], g["dval"], g["hold"]
+        R, r0 = g["results"], g["r0"]
+        j, t = bv("j!md", I), bv("t!md", Id)
+        if isinstance(args, sym.SSeq):
+            n, at = args.n, (lambda q: args.at(q)._i)
+        elif isinstance(args, MakeDag.SHolders):
+            n, at = args.n, (lambda q: args.ids[q])
+        else:
+            raise ContractBindError("make_dag: `args` is not the list of argument holders")
+        is_new = lambda t_: z3.Exists([j], z3.And(j >= 0, j < upto, hold(dname(j)) == t_))  # noqa: E731
+        return [
+            ("one_holder_per_parameter_in_signature_order", z3.And(n == n1 + upto, z3.ForAll([j], z3.Implies(z3.And(j >= 0, j < n1), at(j) == hold(pname(j)))), z3.ForAll([j], z3.Implies(z3.And(j >= 0, j < upto), at(n1 + j) == hold(dname(j))))), {"C01"}),
+            ("defaults_are_stored_under_their_holders_ids", z3.ForAll([j], z3.Implies(z3.And(j >= 0, j < upto), z3.And(R.dom[hold(dname(j))], R.val[hold(dname(j))] == dval(j)))), {"C01", "C15"}),
+            ("no_other_constant_is_stored", z3.ForAll([t], z3.Implies(z3.Not(is_new(t)), z3.And(R.dom[t] == r0[0][t], z3.Implies(r0[0][t], R.val[t] == r0[1][t])))), {"C01", "C15"}),
+        ]
+
+    def run(self, f, case):
+        from contracts.nodeexec import SKeyStr
+        from pyvc.sym import Id, Key, SInt, SIter, SMap, SSeq, SVal, Val, bv
+
+        n1, n2 = C.fresh("n_positional", I), C.fresh("n_defaulted", I)
+        C.assume(n1 >= 0, n2 >= 0)
+        pname, dname = z3.Function("parameter_name", I, Key), z3.Function("defaulted_parameter_name", I, Key)
+        dval = z3.Function("default_value", I, Val)
+        hold = z3.Function("make_axn_id_of_parameter", Key, Id)
+        a, b = bv("a!md", I), bv("b!md", I)
+        # parameter names are distinct, holder ids are injective in the name (string-level, assumed)
+        C.assume(z3.ForAll([a, b], z3.Implies(z3.And(a >= 0, a < n2, b >= 0, b < n2, hold(dname(a)) == hold(dname(b))), a == b)))
+        C.assume(z3.ForAll([a, b], z3.Implies(z3.And(a >= 0, a < n1, b >= 0, b < n2), hold(pname(a)) != hold(dname(b)))))
+        R = SMap.fresh("node.results", Id, Val, strict=True, on_missing="raise")
+        T = SMap.fresh("node.exec_nodes", Id, Val, strict=True, on_missing="raise")
+        r0, t0 = (R.dom, R.val), (T.dom, T.val)
+        C.ghost.update(n1=n1, pname=pname, dname=dname, dval=dval, hold=hold, results=R, r0=r0)
+        log = dict(func=[], wrap=[], ctor=[], update=[])
+        holder_obj = z3.Function("ArgExecNode_of", Id, Val)
+
+        class _Defaults(Sym):
+            def items(self):
+                it = SIter(I, lambda i: z3.And(i >= 0, i < n2), lambda i: (SKeyStr(dname(i)), SVal(dval(i))), count=n2)
+                it._indexed = (n2, list)
+                return it
+
+        class _Func(Sym):
+            _vc_star = True
+
+            def __call__(self, star=()):
+                log["func"].append(star)
+                return "RETURNED"
+
+        func = _Func()
+        object.__setattr__(func, "__qualname__", "FUNC")
+
+        class _Tables(Sym):
+            def update(self_, other):
+                log["update"].append(other)
+                if not isinstance(other, MakeDag.SHolderDict):
+                    raise ContractBindError("node.exec_nodes.update expects {holder.id: holder}")
+                d0, v0 = T.dom, T.val
+                T.havoc()
+                tt, jj = bv("t!up", Id), bv("j!up", I)
+                hit = lambda t_: z3.Exists([jj], z3.And(jj >= 0, jj < other.n, other.ids[jj] == t_))  # noqa: E731
+                C.assume(z3.ForAll([tt], z3.And(T.dom[tt] == z3.Or(d0[tt], hit(tt)), z3.Implies(z3.And(d0[tt], z3.Not(hit(tt))), T.val[tt] == v0[tt]), z3.Implies(hit(tt), T.val[tt] == holder_obj(tt)))))
+
+        tables = _Tables()
+
+        class _Node(Sym):
+            results = R
+            exec_nodes = tables
+
+        def dictcomp(iterable, elt, cond):
+            col = iterable._vc_iter()
+            if cond is not None or getattr(col, "_indexed", None) is None:
+                raise Unsupported("dict comprehension outside the modelled form")
+            q = bv("q!dc", I)
+            kk, vv = elt(col.elem(q))
+            if not (isinstance(vv, MakeDag.SHolder) and z3.eq(kk.t, vv._i)):
+                raise ContractBindError("make_dag: holders are expected to be registered under their own id")
+            return MakeDag.SHolderDict(col._indexed[0], z3.Lambda([q], vv._i))
+
+        C.ghost["dictcomp"] = dictcomp
+
+        def ctor(flavour):
+            def make(**kw):
+                log["ctor"].append((flavour, kw))
+                return f"THE-{flavour}-DAG"
+
+            return make
+
+        def wrap(fn, val):
+            log["wrap"].append((fn, val))
+            return "RETURN-UXNS"
+
+        from contracts.nodebuild import SUxnCtor, uxn_terms
+
+        f.__globals__.update({
+            "get_args_and_default_args": lambda fn: (SSeq(n1, lambda i: SKeyStr(pname(i)), list, "func_args"), _Defaults()),
+            "ArgExecNode": lambda i: MakeDag.SHolder(sym.term(i)), "make_axn_id": lambda qn, name: sym.SId(hold(sym.term(name))),
+            "node": _Node, "UsageExecNode": SUxnCtor, "wrap_in_uxns": wrap, "DAG": ctor("sync"), "AsyncDAG": ctor("async"),
+        })
+        n = "make_dag"
+        try:
+            r = f(func, 7, case == "async")
+        except KeyError:
+            return "raises KeyError (a holder id is already used)"
+        p = f"{n}.post"
+        ok1 = len(log["func"]) == 1 and isinstance(log["func"][0], SSeq)
+        C.check(z3.BoolVal(ok1), f"{p}.C01.the_describing_function_is_called_exactly_once_with_a_list_of_references", {"C01", "C03"}, "post")
+        if not ok1:
+            return "return"
+        star = log["func"][0]
+        j = bv("j!mp", I)
+        ei, ek = uxn_terms(star.at(j))
+        C.check(z3.And(star.n == n1 + n2, z3.ForAll([j], z3.Implies(z3.And(j >= 0, j < n1), z3.And(ei == hold(pname(j)), ek == sym.kp_empty))),
+                       z3.ForAll([j], z3.Implies(z3.And(j >= n1, j < n1 + n2), z3.And(ei == hold(dname(j - n1)), ek == sym.kp_empty)))),
+                f"{p}.C01.parameter_j_of_the_describing_function_receives_a_plain_reference_to_holder_j", {"C01"}, "post")
+        for nm, goal, serves in self.inv(MakeDag.SHolders(n1 + n2, z3.Lambda([j], ei)), n2):
+            C.check(goal, f"{p}.C01.{nm}", serves, "post")
+        tt = bv("t!mp", Id)
+        is_h = lambda t_: z3.Or(z3.Exists([j], z3.And(j >= 0, j < n1, hold(pname(j)) == t_)), z3.Exists([j], z3.And(j >= 0, j < n2, hold(dname(j)) == t_)))  # noqa: E731
+        C.check(z3.ForAll([tt], T.dom[tt] == z3.Or(t0[0][tt], is_h(tt))), f"{p}.C01.exactly_the_holders_are_registered_in_the_node_table", {"C01", "C03"}, "post")
+        C.check(z3.BoolVal(log["wrap"] == [(func, "RETURNED")]), f"{p}.C01.the_returned_value_is_wrapped_into_return_references", {"C01"}, "post")
+        ok2 = len(log["ctor"]) == 1 and log["ctor"][0][0] == case and r == f"THE-{case}-DAG"
+        C.check(z3.BoolVal(ok2), f"{p}.C17.flavour_follows_is_async", {"C17", "C01"}, "post")
+        if ok2:
+            kw = log["ctor"][0][1]
+            same = kw.get("results") is R and kw.get("exec_nodes") is tables and kw.get("input_uxns") is star and kw.get("return_uxns") == "RETURN-UXNS" and kw.get("max_concurrency") == 7 and kw.get("qualname") == "FUNC"
+            C.check(z3.BoolVal(bool(same)), f"{p}.C01.the_dag_is_built_from_the_tables_the_description_filled", {"C01", "C04", "C15"}, "post")
+        return "return"
+
+    class SHolderDict(Sym):
+        def __init__(self, n, ids):
+            self.n, self.ids = n, ids
